@@ -19,18 +19,18 @@ def norm_hist(hist):
 # fixed multi-step stories (side, operation) whose schedules are explored more deeply: slots after each operation; 'flip' variants swap the sides
 STORIES = {
     # (operations as (side, op), gap after each: n fine slots | ("Q", n) run until quiet or n fine slots, base tree)
-    "create-in-folder-renamed-by-peer-then-edit": ([(0, "create_d_n"), (1, "rendir_d_e"), (0, "write_d_n")], [2, 2, 1], 2),
-    "create-in-folder-removed-by-peer-then-edit": ([(0, "create_d_n"), (1, "rmdir_d"), (0, "write_d_n")], [2, 2, 1], 2),
+    "create-in-folder-renamed-by-peer-then-edit": ([(0, "create_d_n"), (1, "rendir_d_e"), (0, "write_d_n")], [1, 2, 1], 2),
+    "create-in-folder-removed-by-peer-then-edit": ([(0, "create_d_n"), (1, "rmdir_d"), (0, "write_d_n")], [1, 2, 1], 2),
     "folder-renamed-recreated-child-moved-back": ([(0, "rendir_d_e"), (0, "mkdir_d"), (0, "mv:/e/a:/d/a")], [("Q", 1), 1, 2], 3),
     "child-renamed-then-folder-peer-edits-child": ([(0, "mv:/d/a:/d/b"), (0, "rendir_d_e"), (1, "write_d_a")], [1, 2, 1], 3),
-    "edit-vs-rename-then-edit": ([(0, "write_a"), (1, "rename_a_b"), (0, "write_a")], [2, 2, 1], 1),
-    "renamed-and-back-peer-edits": ([(0, "rename_a_b"), (0, "mv:/b:/a"), (1, "write_a")], [("Q", 3), 1, 1], 1),
+    "edit-vs-rename-then-edit": ([(0, "write_a"), (1, "rename_a_b"), (0, "write_a")], [1, 2, 1], 1),
+    "renamed-and-back-peer-edits": ([(0, "rename_a_b"), (0, "mv:/b:/a"), (1, "write_a")], [("Q", 2), 1, 1], 1),
     "edited-synced-edited-on-both": ([(0, "write_a"), (1, "write_a"), (0, "write_a")], [("Q", 1), 2, 1], 1),
     "deleted-synced-recreated-on-peer": ([(0, "delete_a"), (1, "create_a"), (0, "create_a")], [("Q", 1), 2, 1], 1),
     "moved-into-folder-peer-renames-folder": ([(0, "move_a_d"), (1, "rendir_d_e"), (0, "write_d_a")], [("Q", 1), 2, 1], 2),
     "both-rename-same-file-differently-then-edit": ([(0, "rename_a_b"), (1, "rename_a_c"), (0, "write_b")], [1, 2, 1], 1),
     "folder-renamed-with-new-child-while-peer-empties-and-removes-it": ([(0, "create_d_n"), (0, "rendir_d_e"), (1, "delete_d_a"), (1, "rmdir_d")], [1, 0, 0, 2], 3),
-    "renamed-onto-a-deleted-name": ([(0, "delete_b"), (0, "mv:/a:/b"), (1, "write_a")], [("Q", 2), 2, 1], 3),
+    "renamed-onto-a-deleted-name": ([(0, "delete_b"), (0, "mv:/a:/b"), (1, "write_a")], [("Q", 1), 2, 1], 3),
     "swap-through-temporary-name-peer-edits": ([(0, "mv:/a:/t"), (0, "mv:/b:/a"), (0, "mv:/t:/b"), (1, "write_a")], [1, 1, 1, 1], 3),
 }
 
@@ -155,7 +155,7 @@ def jobs(tier):
     if tier == "quick":
         combos = [("oid", 1, 2, 1), ("oid", 2, 2, 1), ("path", 2, 2, 1)]
         # deeper schedules (2 slots) on the conflict shapes where the known findings live
-        focus = [(f, 1, 2, 2, [s, "create_b"]) for f in ("oid", "path") for s in (0, 1)]
+        focus = [(f, 1, 2, 2, [s, "create_b"]) for f in ("oid",) for s in (0, 1)]
     else:
         combos = []
     if tier != "quick":
@@ -193,7 +193,7 @@ def jobs(tier):
     for f in (("oid",) if tier == "quick" else ("oid", "path")):
         for side in (0, 1):
             for op in OPS:
-                out.append({"harness": "hist", "params": {"flavour": f, "base": 2, "nops": 2, "slots": 1, "slotsper": [1, 0], "midstep": 3 if tier == "quick" else 5, "first": [side, op]},
+                out.append({"harness": "hist", "params": {"flavour": f, "base": 2, "nops": 2, "slots": 1, "slotsper": [1, 0], "midstep": 2 if tier == "quick" else 5, "first": [side, op]},
                             "label": "%s/base2/2ops/second-inside-a-step/first=%d:%s" % (f, side, op)})
     # a folder taking a deleted file's name; one copy becoming unreadable while the other side has an unsynced edit
     for f in (("oid", "path") if tier == "quick" else ("oid", "path", "mixed")):
